@@ -51,6 +51,30 @@ impl Property for C15 {
             }
         }
         st.exhaustive_parts.push("u8 offset types: first item of 250..=254 elements followed by a second item, every buffer length and route".into());
+        // the same boundary for 16-bit offset types (native and portable): a first item whose sealing offset is
+        // just below / at / above 65535, buffers around the reference size and comfortably above it
+        for name in ["FlexVec<FlatString<le::U32>, le::U16>", "FlexVec<FlatString<u32>, u16>", "FlexVec<FlatVec<u8, be::U32>, be::U16>"] {
+            let Some(idx) = reg.by_name(name) else { continue };
+            let sh = reg.shapes[idx].as_ref();
+            let a = model::align(sh.ty());
+            for k in [65_500usize, 65_523, 65_524, 65_525, 65_526, 65_527, 65_528, 65_529, 65_530, 65_531, 65_532, 65_536, 65_600] {
+                job += 1;
+                if job % nshards != shard {
+                    continue;
+                }
+                let item = |n: usize| match sh.ty() {
+                    crate::desc::Ty::FlexVec(t, _) if matches!(**t, crate::desc::Ty::FlatString(_)) => crate::desc::Value::Str("b".repeat(n)),
+                    _ => crate::desc::Value::Vec(vec![crate::desc::Value::Scalar(3); n]),
+                };
+                let v = crate::desc::Value::Flex(vec![item(k), item(2)]);
+                let size_ref = model::size_of(sh.ty(), &v);
+                let lens = vec![size_ref - a, size_ref, size_ref + a, 66_400, 70_000];
+                for route in [&[][..], &[0xF5, 0xF5, 0xF5][..]] {
+                    enumerate_lens(sh, &v, route, false, Some(lens.clone()), st)?;
+                }
+            }
+        }
+        st.exhaustive_parts.push("16-bit offset types (u16, le::U16, be::U16): first item with a sealing offset of 65512..65612 followed by a second item, buffers around and above the reference size".into());
         Ok(())
     }
     fn run_case(&self, reg: &Registry, shape: usize, tape: &[u8], st: &mut Stats) -> CaseResult {
@@ -64,6 +88,8 @@ impl Property for C15 {
         if t.chance(1, 10) {
             // lengths in the neighbourhood of u8::MAX (length / offset type limits)
             fuel = Fuel::big();
+            // half of them may exceed the length type's maximum: no buffer is large enough for those
+            fuel.overlong = route.last().copied().unwrap_or(0) & 1 == 1;
         }
         let v = if use_default { default_value(ty) } else { gen_value(ty, &mut t, &mut fuel) };
         enumerate(sh.as_ref(), &v, &route, use_default, st)
@@ -72,6 +98,11 @@ impl Property for C15 {
 
 /// Every buffer length x address offset x route for one (shape, value).
 fn enumerate(sh: &dyn crate::glue::DynShape, v: &crate::desc::Value, route: &[u8], use_default: bool, st: &mut Stats) -> CaseResult {
+    enumerate_lens(sh, v, route, use_default, None, st)
+}
+
+/// `lens`: the buffer lengths to try (default: every length 0 ..= reference size + 2*ALIGN + 4).
+fn enumerate_lens(sh: &dyn crate::glue::DynShape, v: &crate::desc::Value, route: &[u8], use_default: bool, lens: Option<Vec<usize>>, st: &mut Stats) -> CaseResult {
     {
         let ty = sh.ty();
         let name = ty.short();
@@ -84,11 +115,12 @@ fn enumerate(sh: &dyn crate::glue::DynShape, v: &crate::desc::Value, route: &[u8
         let representable = model::encode(ty, &v, size_ref + 64, 0, &mut Canonical).is_ok();
         st.shapes_seen.insert(name.clone());
         let max_len = size_ref + 2 * a + 4;
-        if max_len > 1200 {
+        if max_len > 1200 && lens.is_none() {
             st.label("skipped: too large for the exhaustive length loop");
             return Ok(());
         }
-        for len in 0..=max_len {
+        let lens: Vec<usize> = lens.unwrap_or_else(|| (0..=max_len).collect());
+        for len in lens {
             for off in 0..a {
                 // routes: 0 new_in_place, 1 default_in_place, 2.. FlatWrap kinds
                 let nroutes = if use_default { 6 } else { 4 };
